@@ -118,10 +118,10 @@ Qed.
 Lemma finder_listed_name s p k i o :
   Inv s -> finder (getn s p) (Some k) i = Some o -> In o (n_list (getn s p)) -> n_name (getn s o) = Some k.
 Proof.
-  intros I. unfold finder. destruct (nth_error (iget (Some k) (n_idx (getn s p))) i) as [c|] eqn:E1.
-  - intros [= <-] _. apply nth_error_In in E1. rewrite (I_index s I) in E1. apply filter_In in E1.
+  intros I. unfold finder. destruct (py_nth (iget (Some k) (n_idx (getn s p))) i) as [c|] eqn:E1.
+  - intros [= <-] _. apply py_nth_In in E1. rewrite (I_index s I) in E1. apply filter_In in E1.
     destruct E1 as [_ E1]. unfold name_is in E1. destruct (opt_eqb_spec (Some k) (n_name (getn s c))); congruence.
-  - intros E2 Hin. apply nth_error_In in E2.
+  - intros E2 Hin. apply py_nth_In in E2.
     assert (Hb : In (Some k, iget (Some k) (n_tidx (getn s p))) (n_tidx (getn s p))).
     { apply iget_In_binding. intros E. rewrite E in E2. destruct E2. }
     destruct (I_trav s I p) as (_ & T & _). destruct (T _ _ _ Hb E2) as (_ & X & _). tauto.
@@ -129,10 +129,10 @@ Qed.
 
 Lemma finder_allocated s p k i o : Inv s -> finder (getn s p) k i = Some o -> o < s_next s.
 Proof.
-  intros I. unfold finder. destruct (nth_error (iget k (n_idx (getn s p))) i) as [c|] eqn:E1.
-  - intros [= <-]. apply nth_error_In in E1. rewrite (I_index s I) in E1. apply filter_In in E1.
+  intros I. unfold finder. destruct (py_nth (iget k (n_idx (getn s p))) i) as [c|] eqn:E1.
+  - intros [= <-]. apply py_nth_In in E1. rewrite (I_index s I) in E1. apply filter_In in E1.
     apply (I_bound s I p). tauto.
-  - intros E2. apply nth_error_In in E2.
+  - intros E2. apply py_nth_In in E2.
     assert (Hb : In (k, iget k (n_tidx (getn s p))) (n_tidx (getn s p))).
     { apply iget_In_binding. intros E. rewrite E in E2. destruct E2. }
     destruct (I_trav s I p) as (_ & T & _). destruct (T _ _ _ Hb E2) as (_ & _ & X). exact X.
@@ -152,6 +152,53 @@ Proof.
   - eapply finder_listed_name; eauto.
 Qed.
 
+(* ---------- element.value = <BaseDataType instance> ---------- *)
+
+Lemma set_value_dt_spec fuel : forall (U B : nat -> Prop) x dt text,
+  spec (set_value_dt t le fuel x dt text) (fun s => K U B s /\ x < s_next s) (fun _ s => K U B s) (K U B).
+Proof.
+  induction fuel as [|f IH]; intros U B x dt text s (HK & Hx); cbn [set_value_dt]; [exact HK|].
+  cbn [mbind node_of].
+  pose proof (K_track U B s x HK Hx) as HK'. set (B' := fun d => B d \/ d = x) in *.
+  assert (W : forall s', K U B' s' -> K U B s') by (intros s' H; now apply K_untrack in H).
+  (* the Field / Component case, given the node of the new child *)
+  assert (Complex : forall nd : result node,
+            (forall n, nd = Ok n -> blank n) ->
+            match (let! c := (let! nd0 := lift nd in alloc nd0) in
+                   set_value_dt t le f c dt text;;
+                   let! X := node_of x in
+                   match n_list X with [] => add t x c | old :: _ => replace_child t x old c end)%heap s
+            with (s', Ok _) => K U B s' | (s', Err _) => K U B s' end).
+  { intros nd Hb. rewrite mbind_run. rewrite mbind_run. unfold lift. destruct nd as [n|y]; [|exact HK].
+    pose proof (alloc_spec U B' Fnone n s (conj HK' (conj (frame_none s) (Hb n eq_refl)))) as H.
+    step_with H; [|now apply W]. destruct H as (H1 & _ & NU & _ & Hc & _).
+    rewrite mbind_run.
+    (* IH instantiated at U + {r}: the new child stays a candidate while its own value is set *)
+    pose proof (IH (fun d => U d \/ d = r) B' r dt text s0 (conj (K_addU U B' s0 r H1 Hc) (proj1 (proj2 Hc)))) as H.
+    step_with H; [|apply W; now apply K_dropU in H].
+    pose proof (cand_unfold _ _ _ r H (or_intror eq_refl)) as Hc1. apply K_dropU in H.
+    cbn [mbind node_of]. destruct (n_list (getn s1 x)) as [|old rest] eqn:El.
+    - pose proof (add_spec t U B' x r s1 (conj H (cand_addable U s1 r x NU Hc1))) as H'. step_with H'; now apply W.
+    - pose proof (replace_child_head_spec t U B' x old r rest s1 (conj H (conj NU (conj Hc1 El)))) as H'.
+      step_with H'; now apply W. }
+  destruct (n_cls (getn s x)).
+  - exact HK.
+  - destruct (base t (n_dt (getn s x))); cbn [negb]; [|exact HK].
+    apply (Complex (match mk_component t (n_lvl (getn s x)) None (Some dt) None with
+                    | Ok y => Ok (fresh t CComp (c_name y) (n_lvl (getn s x)) (c_st y) (c_dt y))
+                    | Err y => Err y end)).
+    intros n. destruct (mk_component _ _ _ _ _); intros [= <-]. repeat split.
+  - destruct (base t (n_dt (getn s x))); cbn [negb]; [|exact HK].
+    apply (Complex (match mk_subcomponent t (n_lvl (getn s x)) (le (n_lvl (getn s x))) None (Some dt) [] None with
+                    | Ok y => Ok (fresh t CSub (sc_name y) (n_lvl (getn s x)) None (sc_dt y))
+                    | Err y => Err y end)).
+    intros n. destruct (mk_subcomponent _ _ _ _ _ _ _); intros [= <-]. repeat split.
+  - cbn [mbind lift]. destruct (le _ _ _) as [enc|y]; [|exact HK]. cbn [mbind]. rewrite mbind_run.
+    pose proof (set_val_spec U B' x text enc s HK') as H. step_with H; [|now apply W].
+    pose proof (to_traversal_spec t U B' FUEL x s0 (conj H (K_B _ _ _ _ H (or_intror eq_refl)))) as H'.
+    step_with H'; now apply W.
+Qed.
+
 (* ---------- ElementList.set ---------- *)
 
 Definition vok (U : nat -> Prop) (s : store) (v : value) : Prop :=
@@ -159,7 +206,7 @@ Definition vok (U : nat -> Prop) (s : store) (v : value) : Prop :=
   | VText _ => True
   | VElem c => ~ U c /\ cand s c
   | VProxy _ _ => True
-  | VDt _ _ => False
+  | VDt _ _ => True
   end.
 
 Lemma set_child_spec U B p name v index :
@@ -180,28 +227,26 @@ Proof.
     cbn [mbind node_of]. destruct (iget (Some name0) (n_idx (getn s owner))); eexists; split; try reflexivity; exact I. }
   destruct Hconv as (r & -> & Hv'). destruct r as [v'|x]; [|exact HK]. clear v Hv.
   cbn [mbind node_of lift]. destruct (fcr t (getn s p) (upper name)) as [[cname cref]|x]; [|exact HK].
-  cbn [mbind]. rewrite mbind_run.
-  (* the child to attach: freshly parsed, or the element handed in *)
-  assert (Hchild : match (match v' with
-                          | VText txt => parse_child t e le p cname cref txt
-                          | VElem c => ret c
-                          | VDt dt txt => (let! c := create_element t le false p (upper name) false (Some (cname, cref)) in
-                                           set_value_dt t le 3 c dt txt;; ret c)%heap
-                          | VProxy _ _ => raise OutOfFuel
-                          end) s with
+  cbn [mbind].
+  (* the child to attach: freshly parsed, the element handed in, or built detached from a datatype object *)
+  match goal with |- context [mbind ?m _ s] => set (mchild := m) end. rewrite mbind_run.
+  assert (Hchild : match mchild s with
                    | (s', Ok c) => K U B s' /\ ~ U c /\ cand s' c
                    | (s', Err _) => K U B s'
                    end).
-  { destruct v' as [txt|c| |]; try exact HK; try destruct Hv'.
+  { unfold mchild. destruct v' as [txt|c| |dt txt]; try exact HK.
     - apply (parse_child_spec U B p cname cref txt s HK).
-    - cbn [ret]. auto. }
-  destruct ((match v' with
-             | VText txt => parse_child t e le p cname cref txt
-             | VElem c => ret c
-             | VDt dt txt => (let! c := create_element t le false p (upper name) false (Some (cname, cref)) in
-                              set_value_dt t le 3 c dt txt;; ret c)%heap
-             | VProxy _ _ => raise OutOfFuel
-             end) s) as [s1 [child|x]]; [|exact Hchild].
+    - cbn [ret]. destruct Hv'. auto.
+    - rewrite mbind_run. unfold lift.
+      destruct (ctor_node t le (getn s p) cname cref) as [nd|y] eqn:Ec; [|exact HK].
+      destruct (ctor_node_blank _ _ _ _ Ec) as [Bn _]. rewrite mbind_run.
+      pose proof (alloc_spec U B Fnone nd s (conj HK (conj (frame_none s) Bn))) as H.
+      step_with H; [|exact H]. destruct H as (H1 & _ & NU & _ & Hc & _). rewrite mbind_run.
+      pose proof (set_value_dt_spec 3 (fun d => U d \/ d = r) B r dt txt s0
+                    (conj (K_addU U B s0 r H1 Hc) (proj1 (proj2 Hc)))) as H.
+      step_with H; [|now apply K_dropU in H].
+      cbn [ret]. pose proof (cand_unfold _ _ _ r H (or_intror eq_refl)) as Hc1. apply K_dropU in H. auto. }
+  destruct (mchild s) as [s1 [child|x]]; [|exact Hchild]. clear mchild.
   destruct Hchild as (HK1 & NU & Hc). cbn [mbind node_of].
   destruct (opt_eqb_spec (n_name (getn s1 child)) (Some cname)) as [En|]; cbn [negb]; [|exact HK1].
   rewrite mbind_run. cbn [negb].
@@ -371,7 +416,17 @@ Proof.
       * destruct H as [H H']. apply K_untrack in H. exact H.
       * destruct (is_cnf x1); cbn [raise]; now apply K_untrack in H.
     + now apply (set_child_spec' U B x cn (VProxy o pn) 0 s0).
-  - destruct Hv.
+  - destruct (positional t (getn s0 x) name) as [[cn sub]|ex]; [|exact H1]. cbn [mbind].
+    destruct sub as [k|].
+    + rewrite mbind_run.
+      pose proof (get_proxy_spec U B x name s0 (conj H1 Hx1)) as H. step_with H; [|exact H].
+      destruct H as (H2 & H3 & H4). destruct r as [c pn]. cbn [fst] in H4.
+      pose proof (set_child_spec' U (fun d => B d \/ d = x) c pn (VDt dt txt) 0 s1
+                    (conj (K_track U B s1 x H2 H3) (conj H4 I))) as H.
+      step_with H.
+      * destruct H as [H H']. apply K_untrack in H. exact H.
+      * destruct (is_cnf x1); cbn [raise]; now apply K_untrack in H.
+    + now apply (set_child_spec' U B x cn (VDt dt txt) 0 s0).
 Qed.
 
 Lemma write_chain_spec U B x names v :
@@ -414,7 +469,12 @@ Proof.
       step_with H; [|now apply K_untrack in H]. destruct H as (H4 & _ & H6).
       pose proof (set_attr_spec U (fun d => B d \/ d = x) r0 lastn (VProxy o pn) s1 (conj H4 (conj H6 (conj I I)))) as H.
       step_with H; [|now apply K_untrack in H]. destruct H as [H _]. now apply K_untrack in H.
-    + destruct Hv.
+    + pose proof (read_chain_spec U B x (rev (f :: front')) s (conj HK Hx)) as H. step_with H; [|exact H].
+      destruct H as (H1 & H2 & H3). rewrite mbind_run.
+      pose proof (proxy_element_spec U (fun d => B d \/ d = x) (fst r) (snd r) s0 (conj (K_track U B s0 x H1 H2) H3)) as H.
+      step_with H; [|now apply K_untrack in H]. destruct H as (H4 & _ & H6).
+      pose proof (set_attr_spec U (fun d => B d \/ d = x) r0 lastn (VDt dt txt) s1 (conj H4 (conj H6 (conj I I)))) as H.
+      step_with H; [|now apply K_untrack in H]. destruct H as [H _]. now apply K_untrack in H.
 Qed.
 
 (* ---------- datatype and value ---------- *)
